@@ -25,7 +25,11 @@ META = {
                   "discrete / continuous eigenvalue classification is proved against the property's wording.",
     "level_note": "Trusted: numpy.linalg.eig (accuracy and that it returns the spectrum), T8 Floquet theory (Phi(t) v is the "
                   "Floquet vector at phase t with the same multiplier). Depends on C03 (forward STM is the derivative of the "
-                  "flow) and C01 (_jacobi is an integral). Not decided: accuracy of the eigenvectors.",
+                  "flow) and C01 (_jacobi is an integral). Not decided: accuracy of the eigenvectors; WHICH member of a stable / "
+                  "unstable set with several elements is selected (under A1 every member is a true Floquet direction; with "
+                  "floating-point eigenvalues the numerically split trivial multiplier can leak into the sets - only the "
+                  "thorough tier's BOUNDED native witness, one Earth-Moon L1 halo against scipy DOP853, sees that). The directed "
+                  "field handed to the integrators is the obligation shared with C10.",
     "technique": "recorded-callee wiring contracts on the real service methods + sympy identities + z3 path VCs",
 }
 
